@@ -325,11 +325,12 @@ func checkShadowStruct(w *World, r *Result) {
 			}
 			return true
 		})
-		for _, a := range appendStmts(info, l.rs.Body, "") {
-			if strings.Contains(strings.ToLower(es(a.Lhs[0])), "def") {
-				hasDef = true
-			}
+		// the mirroring loop is the one that builds several per-field lists (definition, to-wrapper, from-wrapper)
+		tg := map[string]bool{}
+		for _, a := range accumStmts(info, fi.Decl, l.rs) {
+			tg[a.target] = true
 		}
+		hasDef = len(tg) >= 2
 		if hasGen && rec == nil {
 			rec = l
 		}
@@ -365,27 +366,31 @@ func checkShadowStruct(w *World, r *Result) {
 	})
 	r.cond(okRec, "AGR-C02e", fi.Name, "every field type is generated", w.Pos(rec.rs.Pos()), "ctx.generate(field.Type) for every field (unless gomacro:\"ignore\"), before and independently of the test whether the struct itself needs a wrapper", "the recursion into the field types is subject to {"+strings.Join(recWhy, " ; ")+"} (or missing): nested structs, named slices and maps declared elsewhere get no MarshalJSON/UnmarshalJSON although the struct that uses them is analysed")
 	// mirroring loop: no filter, lists in lock-step
-	guards := leadingGuards(info, mir.rs.Body, mir.subst)
+	guards, _ := loopFilterSplit(info, fi.Decl, mir.rs, mir.subst)
 	targets, ok, why := loopAppendsOnce(fi, mir.rs)
 	r.cond(len(guards) == 0 && ok && len(targets) == 3, "AGR-C02c", fi.Name, "shadow struct mirrors every field", w.Pos(mir.rs.Pos()), "field definition, to-wrapper and from-wrapper entries {"+strings.Join(targets, ", ")+"} grow once per field, no field skipped", "the shadow struct does not mirror every field in lock-step ("+why+"; filters: "+strings.Join(guards, ", ")+")")
 	// FLW-C02d: the tag reaches the field definition
+	// one of the per-field lists (the field definitions) must depend on the field's tag
 	var defApp *ast.AssignStmt
-	for _, a := range appendStmts(info, mir.rs.Body, "") {
-		if strings.Contains(strings.ToLower(es(a.Lhs[0])), "def") {
-			defApp = a
+	tagFlows := false
+	for _, a := range accumStmts(info, fi.Decl, mir.rs) {
+		if defApp == nil {
+			defApp = a.stmt
+		}
+		pc := &pathCtx{w: w, fi: fi, seen: map[types.Object]bool{}, noParams: true}
+		ps := map[string]bool{}
+		for _, v := range a.values {
+			pc.pathsOf(v, 0, ps)
+		}
+		for p := range ps {
+			if strings.HasSuffix(p, ".Tag") || strings.Contains(p, ".Tag.") || strings.Contains(p, ".Tag(") {
+				tagFlows = true
+				defApp = a.stmt
+			}
 		}
 	}
 	if defApp == nil {
-		Undecided("gounions.codeForStruct: append to the field definitions not found")
-	}
-	pc := &pathCtx{w: w, fi: fi, seen: map[types.Object]bool{}, noParams: true}
-	ps := map[string]bool{}
-	pc.pathsOf(defApp.Rhs[0].(*ast.CallExpr).Args[1], 0, ps)
-	tagFlows := false
-	for p := range ps {
-		if strings.HasSuffix(p, ".Tag") || strings.Contains(p, ".Tag.") || strings.Contains(p, ".Tag(") {
-			tagFlows = true
-		}
+		Undecided("gounions.codeForStruct: no per-field list found in the mirroring loop")
 	}
 	r.cond(tagFlows, "FLW-C02d", fi.Name, "struct tags carried into the shadow struct", w.Pos(defApp.Pos()), "the field definition is built from the field's name, type and tag", "the shadow struct's fields are declared without the original struct tags: a field tagged `json:\"a\"` is written under the key `A`, `json:\"-\"` fields appear, omitempty is lost")
 	// AGR-C02w: wrapper exactly for union-typed fields
